@@ -68,6 +68,9 @@ type bareBackend struct {
 	calls      int
 	declareLen bool // the error page declares its Content-Length (as net/http and proxies do)
 	jsonBody   bool // the error page is a JSON document without any RPC error code ("{}")
+	// restError > 0 (REST targets): the body is a google.rpc.Status in JSON, as a REST backend reports its errors:
+	// 1 = {"message":"boom"} (no code), 2 = {"code":5,"message":"boom"}, 3 = {"code":0,"message":"boom"}
+	restError int
 }
 
 func (b *bareBackend) ServeHTTP(w http.ResponseWriter, r *http.Request) {
@@ -77,6 +80,10 @@ func (b *bareBackend) ServeHTTP(w http.ResponseWriter, r *http.Request) {
 	w.Header().Set("Content-Type", "text/plain")
 	if b.jsonBody {
 		body = []byte("{}")
+		w.Header().Set("Content-Type", "application/json")
+	}
+	if b.restError > 0 {
+		body = []byte([]string{`{"message":"boom"}`, `{"code":5,"message":"boom"}`, `{"code":0,"message":"boom"}`}[b.restError-1])
 		w.Header().Set("Content-Type", "application/json")
 	}
 	if b.declareLen {
@@ -114,6 +121,9 @@ func hC03Pipe() {
 	var bare *bareBackend
 	if kind == 4 {
 		bare = &bareBackend{status: bareStatuses[verifChoose("status", len(bareStatuses))], declareLen: verifChoose("declareLen", 2) == 1, jsonBody: verifChoose("jsonErrorPage", 2) == 1}
+		if target == ProtocolREST {
+			bare.restError = verifChoose("restErrorBody", 4)
+		}
 		p.tr.methods[pipePath].handler = bare
 	}
 	overLimitCalls := 0
@@ -206,8 +216,16 @@ func hC03Pipe() {
 		verifReach("bare-http-error")
 		verifAssert(out.code != 0, "C03: bare HTTP failure is an error")
 		want := refStatusToRPC(bare.status)
-		if target == ProtocolREST {
-			verifOutside("REST backend error bodies (protojson Status) are outside the encoding")
+		if bare.restError == 2 {
+			// a REST backend's own error document: its code and message are the RPC's outcome
+			verifReach("rest-backend-error-document")
+			if cfg.client == cfREST {
+				verifAssert(p.sink.status == 404, "C04: error code survives")
+			} else {
+				verifAssert(out.code == 5, "C04: error code survives")
+				verifAssert(out.hasMsg && out.message == "boom", "C04: error message survives")
+			}
+			return
 		}
 		if cfg.client == cfREST {
 			st, _ := refStatusFromRPC(connectCodeU32(want))
@@ -234,6 +252,19 @@ func hC03UnaryCount() {
 	m1 := wireMsg{abstract: nondetBytes("m1", 1)}
 	m2 := wireMsg{abstract: nondetBytes("m2", 1)}
 	p.backend.script = &respScript{msgs: []wireMsg{m1, m2}}
+	if verifChoose("count", 2) == 1 {
+		// ... or with no response message at all (OK status only)
+		p.backend.script.msgs = nil
+		p.serve([]wireMsg{{abstract: []byte{'q'}}})
+		out := refParseClientResponse(cfg, p.sink, p.backend.rec.calls > 0)
+		verifObsInt("status", int64(p.sink.status))
+		verifObsBytes("client-body", p.sink.body)
+		verifObsInt("client-code", int64(out.code))
+		verifReach("no-response-message-for-a-unary-method")
+		verifAssert(!(out.valid && out.code == 0), "C03: a unary call whose backend sent no response message is not reported as a success")
+		verifAssert(p.sink.status != 200 || len(p.sink.body) > 0, "C03: a JSON client is not handed an empty body as a successful response")
+		return
+	}
 	p.serve([]wireMsg{{abstract: []byte{'q'}}})
 	out := refParseClientResponse(cfg, p.sink, p.backend.rec.calls > 0)
 	verifObsInt("status", int64(p.sink.status))
